@@ -374,8 +374,8 @@ theorem shortRun_indices (ks keys : List String) (hnd : keys.Nodup) :
 
 
 
-theorem plain_attr_nil {st : St} (h : Plain st) : Plain { st with attrRen := [] } :=
-  ⟨rfl, h.remap, h.consts, h.fns⟩
+theorem plain_attr_nil {st : St} (h : Plain st) : Plain { st with attrRen := [], constants := [] } :=
+  ⟨rfl, h.remap, rfl, h.fns⟩
 
 /-- `funcState` under `rename=False` -/
 theorem funcState_uniq (o : Opts) (hr : o.rename = false) (d : Nat) (f : FunctionP) (st0 : St) (hp : Plain st0) :
@@ -396,7 +396,7 @@ theorem funcState_short (o : Opts) (hr : o.rename = true) (d : Nat) (f : Functio
     ∧ (funcState o d f st0).shortKeys = (shortRun st0.shortKeys f.usedOrder).2
     ∧ QuietRemaps (funcState o d f st0) := by
   unfold funcState
-  simp only [translateVars_short_state o hr f.usedOrder { st0 with attrRen := [] } rfl hp.remap hne, List.append_nil]
+  simp only [translateVars_short_state o hr f.usedOrder { st0 with attrRen := [], constants := [] } rfl hp.remap hne, List.append_nil]
   exact ⟨trivial, trivial, trivial, hp.remap⟩
 
 
